@@ -846,6 +846,24 @@ impl<'tcx> Cx<'tcx> {
             ]));
         }
         o.push(("blocks", J::Arr(blocks)));
+        // promoted constants (e.g. `&ObjType::Root` in comparisons): value text
+        let mut proms = Vec::new();
+        for pb in tcx.promoted_mir(did).iter() {
+            let mut parts = Vec::new();
+            for data in pb.basic_blocks.iter() {
+                for st in data.statements.iter() {
+                    if let StatementKind::Assign(b) = &st.kind {
+                        let (_, rv) = &**b;
+                        match rv {
+                            Rvalue::Ref(..) => {}
+                            other => parts.push(format!("{:?}", other)),
+                        }
+                    }
+                }
+            }
+            proms.push(J::Str(parts.join("; ")));
+        }
+        o.push(("promoted", J::Arr(proms)));
         Some(J::Obj(o))
     }
 
